@@ -708,15 +708,23 @@ func (ex *Exec) zeroElems(st *State, arr *Term, elem types.Type) {
 }
 
 // embArr is the storage identity of an array embedded in an object.
+var embTags = map[string]int64{}
+
 func (ex *Exec) embArr(ref *Term, base types.Type, path string) *Term {
-	name := symSafe("emb " + ex.env.typeKey(base) + " " + path)
+	k := ex.env.typeKey(base) + " " + path
+	name := symSafe("emb " + k)
+	id, ok := embTags[k]
+	if !ok {
+		id = int64(len(embTags) + 1)
+		embTags[k] = id
+	}
 	f := ex.env.d.Func(name, SRef, SRef)
-	inv := ex.env.d.Func(symSafe("emb-inv "+ex.env.typeKey(base)+" "+path), SRef, SRef)
+	owner := ex.env.d.Func("emb_owner", SRef, SRef)
 	tag := ex.env.d.Func("emb_tag", SInt, SRef)
 	x := Sym("x!emb", SRef)
 	app := App(f.Name, SRef, x)
-	// injective, never nil, tagged (distinct from other embeddings), never an allocated object
-	ex.addAxiom(Forall([]*Term{x}, And(Eq(App(inv.Name, SRef, app), x), Lt(app, IntLit(0)), Eq(App(tag.Name, SInt, app), IntLit(int64(len(ex.axioms)+1)))), []*Term{app}))
+	// injective, negative (never an allocated object), tagged (distinct from other embeddings)
+	ex.addAxiom(Forall([]*Term{x}, And(Eq(App(owner.Name, SRef, app), x), Lt(app, IntLit(0)), Eq(App(tag.Name, SInt, app), IntLit(id))), []*Term{app}))
 	return App(f.Name, SRef, ref)
 }
 
